@@ -22,7 +22,7 @@ use std::{
     io,
     mem::MaybeUninit,
     os::fd::{AsFd, AsRawFd, FromRawFd, OwnedFd},
-    os::unix::fs::OpenOptionsExt,
+    os::unix::fs::{OpenOptionsExt, PermissionsExt},
     path::{Path, PathBuf},
     sync::{atomic::{AtomicU64, Ordering}, mpsc},
     time::Duration,
@@ -38,6 +38,8 @@ const NSLOTS: usize = 4;
 const NPIPES: usize = 2;
 const NNAMES: u64 = 6;
 const PIPE_SOFT: usize = 4096;
+// O_APPEND | O_EXCL | O_NOFOLLOW | O_DIRECTORY | __O_TMPFILE
+const CUSTOM_ALLOWED: u64 = 4392064;
 const WATCHDOG: Duration = Duration::from_secs(8);
 
 // ---------------------------------------------------------------------------
@@ -85,6 +87,7 @@ enum Op {
     BigRead { slot: usize, off: u64, k: u64 },
     FsWrite { path: P, data: Vec<u8> },
     FsRead { path: P },
+    OpenEx { slot: usize, path: P, bits: u64, mode: u32, custom: i32 },
 }
 
 fn view_ok(shape: u64, a: usize, b: usize, len: usize) -> Result<(), BadCase> {
@@ -200,6 +203,17 @@ fn decode(case: &[u64]) -> Result<Vec<Op>, BadCase> {
             30 => { let slot = dec_slot(&mut c)?; let off = c.take()?; Op::BigRead { slot, off, k: c.take()? } }
             31 => { let path = dec_path(&mut c)?; let data = c.bytes()?.iter().map(|&x| x as u8).collect(); Op::FsWrite { path, data } }
             32 => Op::FsRead { path: dec_path(&mut c)? },
+            33 => {
+                let slot = dec_slot(&mut c)?;
+                let path = dec_path(&mut c)?;
+                let bits = c.take()?;
+                let mode = c.take()?;
+                let custom = c.take()?;
+                if mode > 4095 || custom & !CUSTOM_ALLOWED != 0 || bits >= 64 {
+                    return Err(BadCase);
+                }
+                Op::OpenEx { slot, path, bits, mode: mode as u32, custom: custom as i32 }
+            }
             _ => return Err(BadCase),
         });
     }
@@ -426,7 +440,7 @@ fn dump(root: &Path) -> Vec<u64> {
                 walk(root, &p, out, count);
             } else {
                 out.push(0);
-                out.push(md.permissions().readonly() as u64);
+                out.push((md.permissions().mode() & 0o7777) as u64);
                 let d = std::fs::read(&p).unwrap_or_default();
                 out.push(d.len() as u64);
                 out.extend(d.iter().map(|&b| b as u64));
@@ -668,6 +682,19 @@ fn run_os(ops: &[Op], root: &Path) -> Rec {
             },
             Op::FsWrite { path, data } => rec.unit(std::fs::write(pjoin(root, path), data)),
             Op::FsRead { path } => rec.data(std::fs::read(pjoin(root, path))),
+            Op::OpenEx { slot, path, bits, mode, custom } => {
+                slots[*slot] = None;
+                let mut o = std_opts(*bits);
+                let base = if bits & 4 != 0 { libc::O_APPEND } else { 0 };
+                o.mode(*mode).custom_flags(base | *custom);
+                match o.open(pjoin(root, path)).and_then(|f| f.metadata().map(|m| (f, m))) {
+                    Ok((f, m)) => {
+                        slots[*slot] = Some((f, false));
+                        rec.both(vec![0, (m.permissions().mode() & 0o7777) as u64]);
+                    }
+                    Err(e) => rec.unit(Err(e)),
+                }
+            }
         }
     }
     drop(slots);
@@ -902,6 +929,22 @@ async fn run_compio(ops: &[Op], root: &Path) -> Rec {
             },
             Op::FsWrite { path, data } => rec.unit(compio_fs::write(pjoin(root, path), data.clone()).await.0),
             Op::FsRead { path } => rec.data(compio_fs::read(pjoin(root, path)).await),
+            Op::OpenEx { slot, path, bits, mode, custom } => {
+                slots[*slot] = None;
+                let mut o = compio_opts(*bits);
+                let base = if bits & 4 != 0 { libc::O_APPEND } else { 0 };
+                o.mode(*mode).custom_flags(base | *custom);
+                match o.open(pjoin(root, path)).await {
+                    Ok(f) => match f.metadata().await {
+                        Ok(m) => {
+                            slots[*slot] = Some(Slot::Pos(f));
+                            rec.both(vec![0, (m.permissions().mode() & 0o7777) as u64]);
+                        }
+                        Err(e) => rec.unit(Err(e)),
+                    },
+                    Err(e) => rec.unit(Err(e)),
+                }
+            }
         }
     }
     drop(slots);
@@ -1011,5 +1054,7 @@ fn run(case: &[u64]) -> Result<Vec<u64>, BadCase> {
 }
 
 fn main() {
+    // the reference (coq/model/FileSpec.v UMASK) assumes this umask
+    unsafe { libc::umask(0o022) };
     main_loop(run);
 }
